@@ -78,18 +78,21 @@ theorem play_noevict (e : Env) (s : St) (lh : Int) (b : Block) (hne : NoEvict e 
     · simp only [h2, Bool.false_eq_true, ↓reduceIte] at hok ⊢
       by_cases h3 : parentMissing e s.pool [] b.txs = true
       · simp [h3] at hok
-      · simp only [h3, Bool.false_eq_true, ↓reduceIte, hne, closure_nil, List.contains_nil, filter_false',
-          List.foldl_nil, Bool.not_false, filter_true', Bool.and_true] at hok ⊢
-        cases hr : applyBlockTxs e lh b.prop (s.pool.filter (fun i => b.txs.contains i)) b.txs s with
-        | none => rw [hr] at hok; simp at hok
-        | some p =>
-          obtain ⟨s2, res⟩ := p
-          have hres : res = .ok := by
-            cases res with
-            | ok => rfl
-            | _ => rw [hr] at hok; simp at hok
-          subst hres
-          exact ⟨s2, XV.Chain.applyBlockTxs_run e lh b.prop _ b.txs s s2 hr, rfl, rfl⟩
+      · simp only [h3, Bool.false_eq_true, ↓reduceIte] at hok ⊢
+        by_cases h4 : staleMember e s.pool [] b.txs = true
+        · simp [h4] at hok
+        · simp only [h4, Bool.false_eq_true, ↓reduceIte, hne, closure_nil, List.contains_nil, filter_false',
+            List.foldl_nil, Bool.not_false, filter_true', Bool.and_true] at hok ⊢
+          cases hr : applyBlockTxs e lh b.prop (s.pool.filter (fun i => b.txs.contains i)) b.txs s with
+          | none => rw [hr] at hok; simp at hok
+          | some p =>
+            obtain ⟨s2, res⟩ := p
+            have hres : res = .ok := by
+              cases res with
+              | ok => rfl
+              | _ => rw [hr] at hok; simp at hok
+            subst hres
+            exact ⟨s2, XV.Chain.applyBlockTxs_run e lh b.prop _ b.txs s s2 hr, rfl, rfl⟩
 
 /-- a successful `playForMiner` is the block loop with the generated (coinbase) transactions applied -/
 theorem playForMiner_ok (e : Env) (s : St) (lh : Int) (b : Block) (hok : (playForMiner e s lh b).2 = .ok) :
